@@ -47,8 +47,10 @@ def scripts(tier):
             ['', 'q'], ['', 'EOF'], ['h', 'q'], ['h', 'EOF'], ['S!', 'q'], ['', ''], ['', 'ERR'], ['h', 'h']]
     # stderr failing at a later write of the status report (after the report has set up whatever it sets up)
     base += [['S!2'], ['S!4'], ['S!9'], ['S!4', 'q']]
+    # lines that are neither empty nor a command: a blank, the '\r' that an [ENTER] sent with a Windows line end leaves behind - status requests
+    base += [[' '], ['\r']]
     if tier == 'thorough':
-        base += [['', '', 'q'], ['', 'h', 'EOF'], ['h', '', 'q'], ['', 'S!', 'q']] + [['S!%d' % k] for k in (3, 5, 6, 7, 8, 10, 11, 12, 13)]
+        base += [['', '', 'q'], ['', 'h', 'EOF'], ['h', '', 'q'], ['', 'S!', 'q'], ['x'], ['\t'], [' ', 'q']] + [['S!%d' % k] for k in (3, 5, 6, 7, 8, 10, 11, 12, 13)]
     return base
 
 
